@@ -24,7 +24,7 @@ ASSUMPTIONS = ['master-equation expectation computed with scipy expm on the 3^N 
 BUDGET = {'quick': 170, 'thorough': 1700}
 CHUNK = {'quick': 4, 'thorough': 10}
 CASE_TIMEOUT = 400
-REQUIRED = ['trees_compared', 'tree_node_curves_compared', 'final_sizes_compared', 'final_size_form_sets', 'final_size_form_direct', 'final_size_form_sk0', 'final_size_sets_on_multigraph', 'gamma0_pairs_on_networks_with_mean_degree_below_1', 'final_size_with_initially_recovered', 'recurrences_checked', 'tau0_models_checked', 'gamma0_pairs_compared']
+REQUIRED = ['gamma0_pairs_on_networks_with_self_loops', 'trees_compared', 'tree_node_curves_compared', 'final_sizes_compared', 'final_size_form_sets', 'final_size_form_direct', 'final_size_form_sk0', 'final_size_sets_on_multigraph', 'gamma0_pairs_on_networks_with_mean_degree_below_1', 'final_size_with_initially_recovered', 'recurrences_checked', 'tau0_models_checked', 'gamma0_pairs_compared']
 
 SIS_SIR_PAIRS = [('SIS_homogeneous_meanfield_from_graph', 'SIR_homogeneous_meanfield_from_graph'), ('SIS_homogeneous_pairwise_from_graph', 'SIR_homogeneous_pairwise_from_graph'),
                  ('SIS_heterogeneous_meanfield_from_graph', 'SIR_heterogeneous_meanfield_from_graph'), ('SIS_heterogeneous_pairwise_from_graph', 'SIR_heterogeneous_pairwise_from_graph'),
@@ -88,6 +88,12 @@ def gen_cases(tier, seed):
             g.add_nodes_from(range(nn))
             for a in range(0, nn // 2 - r.randint(0, 2), 2):
                 g.add_edge(a, a + 1)
+        loops = kind == 'gamma0' and (j // len(kinds)) % 5 == 1
+        if loops:
+            # self-loops (nx.Graph(nx.configuration_model(...)) keeps them, as in the library's own examples): whatever a model makes of them,
+            # its SIS and SIR versions read the same network
+            for a_ in r.sample(list(g), min(2, g.number_of_nodes())):
+                g.add_edge(a_, a_)
         desc = {'n': g.number_of_nodes(), 'edges': sorted([sorted(e) for e in g.edges()]), 'labels': r.choice(gen.LABEL_SCHEMES)}
         if desc['n'] and 2.0 * len(desc['edges']) / desc['n'] < 1:
             desc['sparse'] = True
@@ -389,6 +395,8 @@ def run_gamma0(case, res):
         Sa, Sb = Sa[:int(cut[0]) + 1], Sb[:int(cut[0]) + 1]
         bump(res, 'singular_tail_cases_truncated')
     bump(res, 'gamma0_pairs_compared')
+    if nx.number_of_selfloops(G):
+        bump(res, 'gamma0_pairs_on_networks_with_self_loops')
     if case['graph'].get('sparse'):
         bump(res, 'gamma0_pairs_on_networks_with_mean_degree_below_1')
     d = float(np.max(np.abs(Sa - Sb))) / N
